@@ -51,6 +51,14 @@ Section BIP39.
   (** [bip39checksum] (seed.go:57-60): the high nibble of the first SHA-256 byte *)
   Variable cks : N -> N -> N.
 
+  (*GEN-BEGIN*)
+  (** The four definitions between the GEN markers are what
+      harness/cmd/c20/translate.go (a go/ast translator) regenerates from
+      wallet/seed.go on every run; the check compares the texts.  Every Go
+      assignment is a shadowing [let], in source order.  [e_hi], [e_lo] are the
+      contents of [*entropy] ([binary.BigEndian.Uint64(entropy[:8])] and
+      [(entropy[8:])], resp. what [PutUint64] stored there). *)
+
   (** seed.go:74-78
 <<
       for i := len(words) - 2; i >= 0; i-- {
@@ -65,19 +73,21 @@ Section BIP39.
     match n with
     | O => words
     | S n' =>
-        let words := N.land lo 0x7FF :: words in
-        let lo' := N.lor (shr64 lo 11) (shl64 hi (64 - 11)) in
-        let hi' := shr64 hi 11 in
-        enc_loop n' hi' lo' words
+        let words := N.land lo 0x7FF :: words in                       (* :75 *)
+        let lo := N.lor (shr64 lo 11) (shl64 hi (64 - 11)) in          (* :76 *)
+        let hi := shr64 hi 11 in                                       (* :77 *)
+        enc_loop n' hi lo words
     end.
 
-  (** seed.go:62-81 [encodeBIP39Phrase]; [hi], [lo] are
-      [binary.BigEndian.Uint64(entropy[:8])] and [(entropy[8:])] *)
-  Definition encode (hi lo : N) : list N :=
-    let w := N.lor (shl64 (N.land lo 0x7F) 4) (cks hi lo) in          (* :70 *)
-    let lo' := N.lor (shr64 lo 7) (shl64 hi (64 - 7)) in              (* :72 *)
-    let hi' := shr64 hi 7 in                                          (* :73 *)
-    enc_loop 11 hi' lo' [w].                                          (* :74-78 *)
+  (** seed.go:62-81 [encodeBIP39Phrase] *)
+  Definition encode (e_hi e_lo : N) : list N :=
+    let hi := e_hi in                                                  (* :64 *)
+    let lo := e_lo in                                                  (* :65 *)
+    let w := N.lor (shl64 (N.land lo 0x7F) 4) (cks e_hi e_lo) in       (* :70 *)
+    let words := [w] in                                                (* :71, words = make([]string, 12) *)
+    let lo := N.lor (shr64 lo 7) (shl64 hi (64 - 7)) in                (* :72 *)
+    let hi := shr64 hi 7 in                                            (* :73 *)
+    enc_loop (12 - 1) hi lo words.                                     (* :74-78 *)
 
   (** seed.go:98-101
 <<
@@ -90,21 +100,27 @@ Section BIP39.
     match ts with
     | [] => (hi, lo)
     | v :: ts' =>
-        let hi' := N.lor (shl64 hi 11) (shr64 lo (64 - 11)) in
-        let lo' := N.lor (shl64 lo 11) (idx v) in
-        dec_loop ts' hi' lo'
+        let hi := N.lor (shl64 hi 11) (shr64 lo (64 - 11)) in          (* :99 *)
+        let lo := N.lor (shl64 lo 11) (idx v) in                       (* :100 *)
+        dec_loop ts' hi lo
     end.
 
-  (** seed.go:83-118 [decodeBIP39Phrase] on the token list [strings.Fields(phrase)] *)
-  Definition decode_res (ts : list token) : dres :=
-    if negb (Nat.eqb (length ts) 12) then DErrCount else               (* :87-89 *)
-    if negb (forallb known ts) then DErrWord else                      (* :90-94 *)
-    let '(hi, lo) := dec_loop (firstn 11 ts) 0 0 in                    (* :97-101 *)
-    let w := idx (nth 11 ts Unknown) in                                (* :104 *)
+  (** seed.go:83-118 [decodeBIP39Phrase]; [words] is [strings.Fields(phrase)] *)
+  Definition decode_res (words : list token) : dres :=
+    if negb (Nat.eqb (length words) 12) then DErrCount else            (* :87-89 *)
+    if negb (forallb known words) then DErrWord else                   (* :90-94 *)
+    let lo := 0 in                                                     (* :97 *)
+    let hi := 0 in
+    let '(hi, lo) := dec_loop (firstn (length words - 1) words) hi lo in   (* :98-101 *)
+    let w := idx (nth (length words - 1) words Unknown) in             (* :104 *)
     let checksum := N.land w 0xF in                                    (* :105 *)
-    let hi' := N.lor (shl64 hi 7) (shr64 lo (64 - 7)) in               (* :106 *)
-    let lo' := N.lor (shl64 lo 7) (shr64 w 4) in                       (* :107 *)
-    if cks hi' lo' =? checksum then DOk hi' lo' else DErrChecksum.     (* :110-117 *)
+    let hi := N.lor (shl64 hi 7) (shr64 lo (64 - 7)) in                (* :106 *)
+    let lo := N.lor (shl64 lo 7) (shr64 w 4) in                        (* :107 *)
+    let e_hi := hi in                                                  (* :110 *)
+    let e_lo := lo in                                                  (* :111 *)
+    if negb (cks e_hi e_lo =? checksum) then DErrChecksum else         (* :114-116 *)
+    DOk e_hi e_lo.                                                     (* :117 *)
+  (*GEN-END*)
 
   (** [err == nil] and the entropy *)
   Definition decode (ts : list token) : option (N * N) :=
